@@ -32,6 +32,7 @@ var ScopePkgs = map[string]string{
 
 // Prog is the loaded, type-checked program in SSA form.
 type Prog struct {
+	roleDepth int // nesting of methodByRole (a role may be defined through another anchor)
 	writeOnce map[*ssa.Global]bool
 	Repo      string
 	Fset      *token.FileSet
@@ -173,7 +174,111 @@ func (p *Prog) Func(short, name string) *ssa.Function {
 	if sp == nil {
 		return nil
 	}
-	return sp.Func(name)
+	if fn := sp.Func(name); fn != nil {
+		return fn
+	}
+	return p.funcByRole(short, name)
+}
+
+// funcByRole finds an unexported anchor function that was renamed, by what it does (only when the frozen name no
+// longer exists; the role must single out exactly one function or method of the package).
+func (p *Prog) funcByRole(short, name string) *ssa.Function {
+	if p.roleDepth > 3 {
+		return nil
+	}
+	p.roleDepth++
+	defer func() { p.roleDepth-- }()
+	withValueOf := func(fn *ssa.Function, want func(types.Type) bool) bool {
+		for _, ci := range Calls(fn) {
+			if FuncIs(StaticCallee(ci), "context", "WithValue") {
+				for _, prm := range fn.Params {
+					if want(prm.Type()) {
+						return true
+					}
+				}
+			}
+		}
+		return false
+	}
+	calledFrom := func(fn, caller *ssa.Function) bool {
+		if caller == nil {
+			return false
+		}
+		for _, ci := range Calls(caller) {
+			h := StaticCallee(ci)
+			if h == fn {
+				return true
+			}
+			if h != nil && h.Blocks != nil && p.InPkg(h, short) {
+				for _, cj := range Calls(h) {
+					if StaticCallee(cj) == fn {
+						return true
+					}
+				}
+			}
+		}
+		return false
+	}
+	isParams := func(t types.Type) bool { return IsNamed(t, Mod, "Parameters") }
+	var role func(fn *ssa.Function) bool
+	switch name {
+	case "setTypeInfo":
+		role = func(fn *ssa.Function) bool {
+			return withValueOf(fn, func(t types.Type) bool {
+				pt, ok := t.(*types.Pointer)
+				return ok && isNamedT("Map")(pt.Elem())
+			})
+		}
+	case "setRemoteAddress":
+		role = func(fn *ssa.Function) bool {
+			return withValueOf(fn, func(t types.Type) bool { return IsNamed(t, "net", "Addr") })
+		}
+	case "setClientParameters":
+		from := p.Method(short, "Server", "readClientParameters")
+		role = func(fn *ssa.Function) bool { return withValueOf(fn, isParams) && calledFrom(fn, from) }
+	case "setServerParameters":
+		from := p.Method(short, "Server", "writeParameters")
+		role = func(fn *ssa.Function) bool { return withValueOf(fn, isParams) && calledFrom(fn, from) }
+	case "writeAuthType":
+		role = func(fn *ssa.Function) bool {
+			for _, ci := range Calls(fn) {
+				if h := StaticCallee(ci); h != nil && h.Name() == "Start" && len(ci.Common().Args) == 2 {
+					if c, ok := ConstInt(ci.Common().Args[1]); ok && c == 'R' {
+						return true
+					}
+				}
+			}
+			return false
+		}
+	case "readVersion":
+		role = func(fn *ssa.Function) bool {
+			res := fn.Signature.Results()
+			if res.Len() == 0 || !IsNamed(res.At(0).Type(), Mod+"/pkg/types", "Version") {
+				return false
+			}
+			for _, ci := range Calls(fn) {
+				if h := StaticCallee(ci); h != nil && h.Name() == "ReadUntypedMsg" {
+					return true
+				}
+			}
+			return false
+		}
+	default:
+		return nil
+	}
+	var found *ssa.Function
+	for _, fn := range p.scopeFuncs {
+		if fn.Parent() != nil || fn.Blocks == nil || !p.InPkg(fn, short) {
+			continue
+		}
+		if role(fn) {
+			if found != nil {
+				return nil
+			}
+			found = fn
+		}
+	}
+	return found
 }
 
 // Method resolves a method by receiver type name; ptr selects the pointer receiver method set.
@@ -207,7 +312,205 @@ func (p *Prog) Method(short, typ, name string) *ssa.Function {
 			}
 		}
 	}
-	return nil
+	return p.methodByRole(short, typ, name)
+}
+
+// methodByRole finds an unexported anchor method that was renamed, by what it does (used only when the frozen name
+// no longer exists): the role must single out exactly one method of the receiver type.
+func (p *Prog) methodByRole(short, typ, name string) *ssa.Function {
+	if p.roleDepth > 3 {
+		return nil
+	}
+	p.roleDepth++
+	defer func() { p.roleDepth-- }()
+	methods := func() []*ssa.Function {
+		var out []*ssa.Function
+		for _, fn := range p.scopeFuncs {
+			if fn.Signature.Recv() == nil || fn.Parent() != nil || fn.Blocks == nil || !p.InPkg(fn, short) {
+				continue
+			}
+			if n := NamedOf(fn.Signature.Recv().Type()); n != nil && n.Obj().Name() == typ {
+				out = append(out, fn)
+			}
+		}
+		return out
+	}
+	callsStatic := func(fn *ssa.Function, pred func(*ssa.Function) bool) bool {
+		for _, ci := range Calls(fn) {
+			if h := StaticCallee(ci); h != nil && pred(h) {
+				return true
+			}
+		}
+		return false
+	}
+	var role func(fn *ssa.Function) bool
+	switch typ + "." + name {
+	case "Server.serve":
+		// the connection function: calls the exported Handshake
+		hs := p.Method(short, "Server", "Handshake")
+		role = func(fn *ssa.Function) bool {
+			return hs != nil && fn != hs && callsStatic(fn, func(h *ssa.Function) bool { return h == hs })
+		}
+	case "Session.handleCommand":
+		// the dispatcher: takes the client message type
+		role = func(fn *ssa.Function) bool {
+			for _, prm := range fn.Params {
+				if IsNamed(prm.Type(), Mod+"/pkg/types", "ClientMessage") {
+					return true
+				}
+			}
+			return false
+		}
+	case "Session.consumeSingleCommand":
+		// one iteration: reads a typed message and hands it to the dispatcher
+		hc := p.Method(short, "Session", "handleCommand")
+		role = func(fn *ssa.Function) bool {
+			reads := false
+			for _, ci := range Calls(fn) {
+				if h := StaticCallee(ci); h != nil && h.Name() == "ReadTypedMsg" {
+					reads = true
+				}
+			}
+			return reads && hc != nil && callsStatic(fn, func(h *ssa.Function) bool { return h == hc })
+		}
+	case "Session.consumeCommands":
+		// the loop: calls the single-iteration function and is not it
+		one := p.Method(short, "Session", "consumeSingleCommand")
+		role = func(fn *ssa.Function) bool {
+			return one != nil && fn != one && callsStatic(fn, func(h *ssa.Function) bool { return h == one })
+		}
+	case "Reader.reset":
+		// the window step: unexported, one int parameter, no result, stores Msg
+		role = func(fn *ssa.Function) bool {
+			if token.IsExported(fn.Name()) || len(fn.Params) != 2 || fn.Signature.Results().Len() != 0 {
+				return false
+			}
+			if bt, ok := fn.Params[1].Type().Underlying().(*types.Basic); !ok || bt.Kind() != types.Int {
+				return false
+			}
+			for _, b := range fn.Blocks {
+				for _, in := range b.Instrs {
+					if st, ok := in.(*ssa.Store); ok {
+						if fr, ok := FieldOfAddr(st.Addr); ok && fr.Name == "Msg" {
+							return true
+						}
+					}
+				}
+			}
+			return false
+		}
+	case "Session.handleSimpleQuery", "Session.handleParse", "Session.handleBind", "Session.handleDescribe", "Session.handleExecute":
+		// the handler of one message type: what the dispatcher calls on the arm of that type
+		k := map[string]int64{"handleSimpleQuery": 'Q', "handleParse": 'P', "handleBind": 'B', "handleDescribe": 'D', "handleExecute": 'E'}[name]
+		hc := p.Method(short, "Session", "handleCommand")
+		var target *ssa.Function
+		if hc != nil {
+			for _, b := range hc.Blocks {
+				iff, ok := b.Instrs[len(b.Instrs)-1].(*ssa.If)
+				if !ok {
+					continue
+				}
+				cmp, ok := iff.Cond.(*ssa.BinOp)
+				if !ok || cmp.Op != token.EQL {
+					continue
+				}
+				if c, isC := ConstInt(cmp.Y); !isC || c != k {
+					continue
+				}
+				if _, isP := StripConv(cmp.X).(*ssa.Parameter); !isP {
+					continue
+				}
+				for _, in := range b.Succs[0].Instrs {
+					if ci, isCall := in.(ssa.CallInstruction); isCall {
+						if h := StaticCallee(ci); h != nil && h.Signature.Recv() != nil && p.InPkg(h, short) && target == nil {
+							target = h
+						}
+					}
+				}
+			}
+		}
+		role = func(fn *ssa.Function) bool { return target != nil && fn == target }
+	case "Server.handleAuth":
+		// the authentication step: the Server method (other than the connection function) that reads Server.Auth
+		serve := p.Method(short, "Server", "serve")
+		role = func(fn *ssa.Function) bool {
+			if fn == serve {
+				return false
+			}
+			for _, b := range fn.Blocks {
+				for _, in := range b.Instrs {
+					if fa, ok := in.(*ssa.FieldAddr); ok {
+						if fr, ok := FieldOfAddr(fa); ok && fr.Name == "Auth" && fr.Struct != nil && fr.Struct.Obj().Name() == "Server" {
+							return true
+						}
+					}
+				}
+			}
+			return false
+		}
+	case "Server.writeParameters", "Server.readClientParameters":
+		// the start-up parameter steps: the one that emits ParameterStatus ('S') frames, the one that fills a map from
+		// GetString results
+		emitsS := func(fn *ssa.Function) bool {
+			for _, ci := range Calls(fn) {
+				if h := StaticCallee(ci); h != nil && h.Name() == "Start" && len(ci.Common().Args) == 2 {
+					if c, ok := ConstInt(ci.Common().Args[1]); ok && c == 'S' {
+						return true
+					}
+				}
+			}
+			return false
+		}
+		readsStrings := func(fn *ssa.Function) bool {
+			for _, ci := range Calls(fn) {
+				if h := StaticCallee(ci); h != nil && h.Name() == "GetString" {
+					return true
+				}
+			}
+			return false
+		}
+		deep := func(fn *ssa.Function, pred func(*ssa.Function) bool) bool {
+			if pred(fn) {
+				return true
+			}
+			return callsStatic(fn, func(h *ssa.Function) bool { return h.Blocks != nil && p.InPkg(h, short) && pred(h) })
+		}
+		serve := p.Method(short, "Server", "serve")
+		if name == "writeParameters" {
+			role = func(fn *ssa.Function) bool { return fn != serve && deep(fn, emitsS) }
+		} else {
+			role = func(fn *ssa.Function) bool {
+				if fn == serve || !deep(fn, readsStrings) {
+					return false
+				}
+				for _, b := range fn.Blocks {
+					for _, in := range b.Instrs {
+						if _, ok := in.(*ssa.MapUpdate); ok {
+							return true
+						}
+					}
+				}
+				return false
+			}
+		}
+	case "Server.readVersion":
+		if fn := p.funcByRole(short, "readVersion"); fn != nil {
+			return fn
+		}
+		return nil
+	default:
+		return nil
+	}
+	var found *ssa.Function
+	for _, fn := range methods() {
+		if role(fn) {
+			if found != nil {
+				return nil // ambiguous
+			}
+			found = fn
+		}
+	}
+	return found
 }
 
 // Named looks up a named type of S.
